@@ -11,4 +11,6 @@ open GlueVerif.C20
 #print axioms iterLoop_eq_prod
 #print axioms iterateChunksLoop_partition
 #print axioms iterateChunksLoop_nmax
+#print axioms iterateChunks_entry_nmax
+#print axioms iterateChunks_entry_chunkShape
 #print axioms GlueVerif.C20.derived_codes_spec
